@@ -217,11 +217,18 @@ def body_scores(case, ctx):
     if ref2 is not None:
         with np.errstate(all="ignore"), warnings.catch_warnings():
             warnings.simplefilter("ignore")
-            gp.set_hyperparameters(np.concatenate([th_mean2, th_cov2]))
+            # (the caller's scan idiom: one array, changed in place and passed again - half of the cases)
+            buf = np.concatenate([th_mean2, th_cov2])
+            gp.set_hyperparameters(buf)
         check_loo_predictions(gp, ref2, kappa2, y, spec, tag, ctx, when=" after set_hyperparameters(second vector)")
         with np.errstate(all="ignore"), warnings.catch_warnings():
             warnings.simplefilter("ignore")
-            gp.set_hyperparameters(theta.copy())
+            if case["seed"] % 2:
+                buf[:] = theta
+                gp.set_hyperparameters(buf)
+                ctx.event("hyper-parameter array changed in place and passed again")
+            else:
+                gp.set_hyperparameters(theta.copy())
         check_loo_predictions(gp, ref, kappa, y, spec, tag, ctx, when=" after switching back to the first vector")
         ctx.event("loo-predictions-after-hyperparameter-switch")
     ctx.nontrivial(nontrivial(case, kappa, theta.size))
